@@ -54,6 +54,14 @@ def main():
                 base_ok = False
         if re.search(r'^error', out2, re.M) and not demo_failed:
             compiled = False
+            # a compile-time demonstration: the demo target itself no longer compiles with the change
+            rc3, out3 = sh('cargo test --workspace --no-fail-fast --offline 2>&1 | grep -E "could not compile" | head -5', cwd=wt, env=env)
+            if 'seed_demo' in out3 and 'lib' not in out3.split('seed_demo')[0][-40:]:
+                os.rename(os.path.join(wt, 'tests', 'seed_demo.rs'), os.path.join(wt, 'seed_demo.rs.aside'))
+                rc4, out4 = sh('cargo test --workspace --no-fail-fast --offline 2>&1 | grep -E "^test result|^error|FAILED" ', cwd=wt, env=env)
+                base_ok = 'FAILED' not in out4 and not re.search(r'^error', out4, re.M) and 'test result: ok' in out4
+                demo_failed = True
+                meta['demo_kind'] = 'compile-time: tests/seed_demo.rs does not compile against the changed crate'
         meta['ran'].append({'cmd': 'cargo test --workspace --no-fail-fast --offline (with the change)', 'existing_suite_passed': base_ok, 'demo_failed': demo_failed})
         confirmed = ok_without and base_ok and demo_failed
         meta['confirmed'] = confirmed
